@@ -56,6 +56,8 @@ def generate(ctx):
                 yield 'int_data', {'b': b, 'x': xi, 'w': wi}
             T = util.small_rationals(rng, (K, 2, 2), 200, 300, 1).tolist()
             yield 'geo', {'b': b, 'T': T, 'R': [287.0, 1.0, 0.28][r % 3]}
+    for K in ([1, 2, 3, 7] if ctx.tier == 'quick' else [1, 2, 3, 5, 6, 7, 12, 24, 37]):
+        yield 'equidistant', {'K': K}
     # malformed / borderline level sets
     bad = [[0.0], [0.0, 1.0], [0.0, 0.5, 0.5, 1.0], [0.0, 0.6, 0.4, 1.0], [0.1, 0.5, 1.0], [0.0, 0.5, 0.9],
            [5e-9, 0.5, 1.0], [2e-8, 0.5, 1.0], [0.0, 0.5, 1.000005], [0.0, 0.5, 1.00002], [0.0, 0.5, 0.99998],
@@ -82,6 +84,17 @@ def generate(ctx):
 def _coords(b):
     jnp, sc, jnu, pe = J()
     return sc.SigmaCoordinates(np.asarray(b, dtype=np.float64))
+
+
+def r_equidistant(ctx, a):
+    jnp, sc, jnu, pe = J()
+    K = a['K']
+    c = sc.SigmaCoordinates.equidistant(K)
+    want = [Fraction(i, K) for i in range(K + 1)]
+    ctx.corr('SigmaCoordinates.equidistant boundaries = i/K', c.boundaries, want, scale=1.0)
+    m = ctx.model.call(0, [K], [c.boundaries])
+    ctx.corr('equidistant: centers/thickness/c2c', np.concatenate([c.centers, c.layer_thickness, c.center_to_center]), m, scale=1.0)
+    ctx.oracle('equidistant(K) has K layers', c.layers == K, c.layers)
 
 
 def r_derived(ctx, a):
@@ -120,6 +133,15 @@ def r_cumint(ctx, a):
                 ctx.corr(f'cumulative_sigma_integral dot={dot} down={down}', ocol,
                          ctx.model.call(3, [K, dot, down], [a['b'], col]), scale=scale)
     tot = np.asarray(sc.sigma_integral(jnp.asarray(x), c, axis=ax, keepdims=True))
+    # keepdims option, purity (second evaluation bit-identical), and the shape contract of keepdims=True
+    tot_nk = np.asarray(sc.sigma_integral(jnp.asarray(x), c, axis=ax, keepdims=False))
+    want_shape = list(x.shape); want_shape[ax] = 1
+    ctx.oracle('sigma_integral(keepdims=True) keeps the vertical axis in place with size 1', list(tot.shape) == want_shape,
+               {'got': list(tot.shape), 'want': want_shape})
+    if list(tot.shape) == want_shape:
+        ctx.oracle_close('sigma_integral keepdims=False = squeeze of keepdims=True', tot_nk, np.squeeze(tot, axis=ax), scale=scale)
+    again = np.asarray(sc.cumulative_sigma_integral(jnp.asarray(x), c, axis=ax, downward=True, cumsum_method='dot'))
+    ctx.oracle('cumulative_sigma_integral is pure (second evaluation bit-identical)', bool(np.array_equal(again, res[1, 1])))
     for (idx, col), (_, tcol) in zip(util.columns(x, ax), util.columns(tot, ax)):
         ctx.corr('sigma_integral', tcol, ctx.model.call(4, [K], [a['b'], col]), scale=scale)
     # property clauses on the implementation
@@ -252,5 +274,5 @@ def r_geo(ctx, a):
     ctx.oracle_close('geopotential dense = cumulative-sum form', outs[0], outs[1], scale=scale)
 
 
-RUNNERS = {'derived': r_derived, 'accept': r_accept, 'cumint': r_cumint, 'cumlog': r_cumlog, 'cdiff': r_cdiff,
+RUNNERS = {'equidistant': r_equidistant, 'derived': r_derived, 'accept': r_accept, 'cumint': r_cumint, 'cumlog': r_cumlog, 'cdiff': r_cdiff,
            'cadv': r_cadv, 'upwind': r_upwind, 'geo': r_geo, 'int_data': r_int_data}
